@@ -149,3 +149,115 @@ def decide(body, fb, env, limit=4000):
     if len(vals) != 1:
         raise Unknown("%d feasible paths" % len(vals))
     return vals[0]
+
+
+def ev_roles(o, roles, env):
+    """finite-domain evaluation keyed by *roles*: env maps a role string (as printed by lang.Roles) to a value
+    (int, bool or ("opt", payload-or-None)); everything else is computed structurally.  Raises Unknown."""
+    try:
+        r = roles.of_origin(o)
+    except Exception:
+        r = None
+    if r in env:
+        return env[r]
+    k = o[0]
+    if k == "const":
+        return o[2]
+    if k in ("ref", "deref", "clone"):
+        return ev_roles(o[-1], roles, env)
+    if k == "cast":
+        return ev_roles(o[3], roles, env)
+    if k == "un" and o[1] == "Not":
+        return not ev_roles(o[2], roles, env)
+    if k == "bin":
+        a, b = ev_roles(o[2], roles, env), ev_roles(o[3], roles, env)
+        if isinstance(a, bool):
+            a = int(a)
+        if isinstance(b, bool):
+            b = int(b)
+        if not (isinstance(a, int) and isinstance(b, int)):
+            raise Unknown(o)
+        op = o[1]
+        tab = {"Add": a + b, "Sub": a - b, "Mul": a * b, "Eq": a == b, "Ne": a != b, "Lt": a < b, "Le": a <= b, "Gt": a > b, "Ge": a >= b, "BitAnd": a & b, "BitOr": a | b, "BitXor": a ^ b}
+        if op in tab:
+            return tab[op]
+        raise Unknown(o)
+    if k == "discr":
+        v = ev_roles(o[1], roles, env)
+        if isinstance(v, tuple) and v[0] == "opt":
+            return 0 if v[1] is None else 1
+        raise Unknown(o)
+    if k in ("some", "unwrap"):
+        v = ev_roles(o[1], roles, env)
+        if isinstance(v, tuple) and v[0] == "opt" and v[1] is not None:
+            return v[1]
+        raise Unknown(o)
+    if k == "variant" and o[1] == "Some":
+        v = ev_roles(o[2], roles, env)
+        if isinstance(v, tuple) and v[0] == "opt" and v[1] is not None:
+            return ("tuple1", v[1])
+        raise Unknown(o)
+    if k == "field" and str(o[1]) == "0":
+        v = ev_roles(o[2], roles, env)
+        if isinstance(v, tuple) and v[0] == "tuple1":
+            return v[1]
+        raise Unknown(o)
+    raise Unknown(o)
+
+
+def step_table(body, fb, roles_of_path, head, blocks, domain, events_of, limit=4000):
+    """decision table of one loop iteration (or of a loop-free body when head is None): for every point of `domain`
+    (a dict role -> value) the set of (event tuple, 'loop' | 'exit') over the feasible acyclic paths.
+    roles_of_path(path) -> Roles built on path-precise origins; events_of(block, term, roles) -> label or None."""
+    from .interp import normal_cfg
+    from .paths import acyclic_paths, simplify
+    cfg = normal_cfg(body)
+    if head is None:
+        paths = [(p, "exit") for p in acyclic_paths(cfg, 0, cfg.returns, limit)]
+    else:
+        latches = [x for x in blocks if head in cfg.succ[x]]
+        exits = sorted({s for x in blocks for s in cfg.succ[x] if s not in blocks})
+        paths = [(p, "loop") for p in acyclic_paths(cfg, head, latches, limit) if all(x in blocks for x in p)]
+        for e in exits:
+            for p in acyclic_paths(cfg, head, [e], limit):
+                if all(x in blocks for x in p[:-1]):
+                    paths.append((p, "exit"))
+    out = {}
+    for name, env in domain.items():
+        rows = set()
+        for p, kind in paths:
+            roles = roles_of_path(p)
+            org = roles.org
+            ok = True
+            for i, bi in enumerate(p[:-1]):
+                t = body.blocks[bi]["term"]
+                if t["k"] != "switch":
+                    continue
+                try:
+                    v = ev_roles(simplify(org.of_operand(t["x"], bi, "t")), roles, env)
+                except Unknown:
+                    continue
+                v = int(v) if isinstance(v, bool) else v
+                if not isinstance(v, int):
+                    continue
+                taken = None
+                for a_, bb in t["arms"]:
+                    if int(a_) == v:
+                        taken = bb
+                if taken is None:
+                    taken = t["otherwise"]
+                if taken != p[i + 1]:
+                    ok = False
+                    break
+            if not ok:
+                continue
+            evs = []
+            for bi in (p if kind == "loop" else p[:-1] if head is not None else p):
+                t = body.blocks[bi]["term"]
+                if t["k"] == "call":
+                    e = events_of(bi, t, roles)
+                    if e:
+                        evs.append(e)
+            rows.add((tuple(evs), kind))
+        out[name] = rows
+    return out
